@@ -587,4 +587,10 @@ PROPS['C12']['proved_part'] += ('; CHARACTER level for the table format: lemma.t
                                 'Table.loads(Table.dumps(...)) is the given triple for every indent; FIMI index rows: the tuples read are the index lists written '
                                 '(empty set = empty line); new text lemmas (ljust / partition / % on the fragment used / csv fields) proved in Lean (lemmas/Text.lean)')
 PROPS['C12']['bounded_part'] = PROPS['C12']['bounded_part'].replace('the characters of the other text formats (table, csv quoting, ', 'the characters of the other text formats (csv quoting, ')
+# character level of the csv format (contracts/formats_chars_csv.py, lemmas/TextCsv.lean, DESIGN 11.18)
+PROPS['C12']['units'] += [u for u in ('lemma.csv.chars.roundtrip', 'formats.csv.Csv.loadf.written', 'formats.csv.Csv.dumpf.chars') if u not in PROPS['C12']['units']]
+PROPS['C12']['proved_part'] += ('; CHARACTER level for csv: lemma.csv.chars.roundtrip / Csv.loadf.written / Csv.dumpf.chars -- the excel-dialect writer and the reader state machine '
+                                'are defined in Lean over List Char and proved inverse for ALL rows of fields up to the field size limit (lemmas/TextCsv.lean: csv_roundtrip, csv_limit); '
+                                'under REP (one row of cells per object, labels within csv.field_size_limit(), at least one object for auto-detection) Csv.loads(Csv.dumps(...)) is the given triple')
+PROPS['C12']['bounded_part'] = PROPS['C12']['bounded_part'].replace('the characters of the other text formats (csv quoting, wiki-table, ', 'that the C implementation of the csv module computes the Lean reader/writer definitions in the excel dialect (validated: 590k comparisons); the characters of the other text formats (wiki-table, ')
 NOT_APPLICABLE = {}
